@@ -86,11 +86,23 @@ CLAIMED = {
          "from_time_of_week asserted only where the result is representable.",
          "DESIGN.md section 6 C20"),
 }
+# model-based operation histories added in the third session (harness/src/props/chain.rs, DESIGN.md section 4)
+HISTORIES = {
+ "C01": " Also generated operation histories (1-16 operations on one value, operands relative to the current state, model compared after every step).",
+ "C04": " Also generated histories of 1-12 shifts of one epoch with the differences between any two states of the history.",
+ "C05": " Also generated walks of 2-12 conversions and additions through the six scales with the closing identity.",
+ "C06": " Also generated walks through UTC / TAI / GPST / TT with additions landing on leap entries.",
+ "C09": " Also generated calendar walks (jumps of days, months, 1-1000 years, leap days) with each state built by the library from the fields.",
+ "C12": " Also generated sets of 2-12 mixed-scale epochs around one instant: all pairs, sort, dedup, binary search.",
+}
 def main():
     checks = []
     for pid in ALL:
         if pid not in CLAIMED: continue
         tech, text, note, ref = CLAIMED[pid]
+        text += HISTORIES.get(pid, "")
+        if pid in HISTORIES:
+            tech += "; stateful / model-based generation of operation histories (vec of operations + interpreter, model in lockstep)"
         checks.append({
             "property_id": pid,
             "quick_cmd": f"./check {pid} quick",
